@@ -15,8 +15,19 @@ IMPORTERS=""
 for p in $PKGS; do ip=github.com/obolnetwork/charon/${p#./}; IMPORTERS="$IMPORTERS $(go list -f '{{.ImportPath}} {{join .Imports " "}} {{join .TestImports " "}} {{join .XTestImports " "}}' ./... 2>/dev/null | grep " $ip\( \|$\)" | cut -d' ' -f1 | sed 's#github.com/obolnetwork/charon#.#')"; done
 ALL=$(echo $PKGS $IMPORTERS "$@" | tr ' ' '\n' | sort -u | grep -v '^./dkg$' | tr '\n' ' ')
 echo "existing tests: $ALL"
-go test -count=1 -timeout 20m $ALL 2>&1 | grep -v "no test files" | grep -v "^ok" | tail -15
-[ ${PIPESTATUS[0]} -eq 0 ] && res existing-tests PASS || res existing-tests FAIL
+go test -count=1 -timeout 20m -json $ALL > /tmp/confirm_tests.json 2>&1
+python3 - <<'PY'
+import json
+bad=set(json.load(open('/verif/tools/baseline_nonpassing.json')))
+fails=[]
+for l in open('/tmp/confirm_tests.json'):
+    try: e=json.loads(l)
+    except Exception: continue
+    if e.get('Action')=='fail' and e.get('Test'):
+        k=e['Package']+'::'+e['Test']
+        if k not in bad: fails.append(k)
+print("CONFIRM existing-tests:", "PASS (failures only among the tests that also fail on the unchanged tree in this sandbox)" if not fails else "FAIL "+str(fails[:10]))
+PY
 for f in $SEED/*_test.go; do cp $f $DEMODIR/zz_seed_$(basename $f); done
 go test -count=1 -run "$RUN" ./$DEMODIR > /tmp/confirm_with.log 2>&1 && res demo-with-change "PASSES (unexpected)" || res demo-with-change "fails (expected)"
 git checkout -q -- . 
